@@ -60,6 +60,23 @@ PROPS["C03"] = dict(
     thorough=dict(shards=16, checks=2000, timeout_s=3600),
 )
 
+PROPS["C08"] = dict(
+    pkg="props/c08", level="exploration", engine="E-model", design_ref="§4 C08",
+    technique="model-based PBT (rapid): fold-oldest-to-newest map oracle vs stacked reader / merger, on disk and on slice-backed inputs",
+    rule=("case = 1..6 tables over <=13 adversarial keys (incl. the empty key, also handed over as nil the way table readers produce it) with "
+          "nil (tombstone) / empty / non-empty values, empty tables and keys present in all tables; kind = stacked reader (Get, Contains, Scan, "
+          "ScanStartingAt, ScanRange over all bound pairs) | plain Merge on disjoint inputs | MergeCompact with each provided reduction; level = "
+          "real tables on disk (generated options/loaders, merge output written and read back) | slice-backed readers; non-trivial = >=2 tables "
+          "sharing a key with different values and a tombstone over a live value or vice versa; distinct = distinct case JSON"),
+    level_text=("Results are compared with the latest-wins fold of the inputs in both directions (nothing missing, nothing extra, value of the right key). "
+                "Sampled exploration with an exact oracle; inputs are unbounded."),
+    level_note="keys whose newest value is empty-but-not-nil may or may not appear in latest-wins scans (the statement is silent); for the skip-tombstones reduction length 0 counts as tombstone as its comment defines",
+    assumptions=COMMON_ASSUME,
+    require_labels=["empty-key-present", "level=disk", "level=slice", "kind=super", "kind=merge", "kind=compact-latest", "kind=compact-skip"],
+    quick=dict(shards=16, checks=300),
+    thorough=dict(shards=16, checks=10000, timeout_s=3600),
+)
+
 NOT_APPLICABLE = {}
 
 
